@@ -1231,9 +1231,11 @@ class Glyph(object):
                     )
                 if boundsDone is not None:
                     boundsDone.add(glyphName)
-            # empty components shouldn't update the bounds of the parent glyph
+            # empty components shouldn't update the bounds of the parent glyph;
+            # a zero-size box can also be a glyph whose points all coincide, which
+            # does count: leave both to the general code path
             if g.yMin == g.yMax and g.xMin == g.xMax:
-                continue
+                return False
 
             x, y = compo.x, compo.y
             bounds = updateBounds(bounds, (g.xMin + x, g.yMin + y))
